@@ -87,7 +87,19 @@ func edgeOfNode(n string) (int, bool) {
 	return c, err == nil
 }
 
-var cursorType = reflect.TypeOf(int(0))
+// cur is the application's cursor type: the ordering key K plus a key-dependent padding, so that
+// serialised cursors have every length modulo 3 (base64 without padding) and the codec is exercised
+// on a struct, not only on a bare integer. The model sees K.
+type cur struct {
+	K int
+	P string
+}
+
+func pad(c int) string { return strings.Repeat("p", ((c%3)+3)%3) }
+
+func curOf(c int) cur { return cur{c, pad(c)} }
+
+var cursorType = reflect.TypeOf(cur{})
 
 type getterCall struct {
 	After  *int  `json:"after"`
@@ -189,11 +201,11 @@ func toIntPtr(v any) *int {
 	if v == nil {
 		return nil
 	}
-	x := v.(int)
+	x := v.(cur).K
 	return &x
 }
 
-func intLess(a, b any) bool { return a.(int) < b.(int) }
+func intLess(a, b any) bool { return a.(cur).K < b.(cur).K }
 
 func newWorld() *world {
 	w := &world{}
@@ -220,7 +232,7 @@ func newWorld() *world {
 				return slice, intLess, nil
 			},
 			CursorType: cursorType,
-			EdgeCursor: func(edge any) any { return edge.(item).C },
+			EdgeCursor: func(edge any) any { return curOf(edge.(item).C) },
 			EdgeFields: edgeFields,
 		}))
 		cfg.AddQueryField("window"+suffix, apifu.Connection(&apifu.ConnectionConfig{
@@ -240,7 +252,7 @@ func newWorld() *world {
 				return len(w.E), nil
 			},
 			CursorType: cursorType,
-			EdgeCursor: func(edge any) any { return edge.(item).C },
+			EdgeCursor: func(edge any) any { return curOf(edge.(item).C) },
 			EdgeFields: edgeFields,
 		}))
 	}
@@ -447,7 +459,16 @@ func (w *world) serve(E []int, policy int, policySeed uint64, r Req) (o servedOb
 // ---- cursor codec (the real one) -----------------------------------------------------------------
 
 func emit(c int) string {
-	s, err := apifu.SerializeCursor(c)
+	s, err := apifu.SerializeCursor(curOf(c))
+	if err != nil {
+		panic(err)
+	}
+	return s
+}
+
+// emitAny serialises an arbitrary value with the real codec (to build foreign cursor strings).
+func emitAny(v any) string {
+	s, err := apifu.SerializeCursor(v)
 	if err != nil {
 		panic(err)
 	}
@@ -465,7 +486,21 @@ func decode(s string) (c int, ok bool, panicked string) {
 	if v == nil {
 		return 0, false, ""
 	}
-	return v.(int), true, ""
+	return v.(cur).K, true, ""
+}
+
+// decodeFull also returns the padding (for the round-trip oracle).
+func decodeFull(s string) (c cur, ok bool, panicked string) {
+	defer func() {
+		if p := recover(); p != nil {
+			panicked = fmt.Sprint(p)
+		}
+	}()
+	v := apifu.DeserializeCursor(cursorType, s)
+	if v == nil {
+		return cur{}, false, ""
+	}
+	return v.(cur), true, ""
 }
 
 var errClasses = map[string]string{
